@@ -110,10 +110,13 @@ class EventDispatcher:
             self._event_queue.append((event_name, args, kwargs))
             return
 
-        # Existance of the referents shall be guaranteed by the
-        # automatic cleanup
+        # Iterate on a snapshot, as callbacks may add or remove handlers.
+        # A handler may even cease to exist while the event is being
+        # dispatched (eg. removed by a previous callback): skip it
         for handler_ref, method_ref in set(self._events[event_name]):
-            method_ref(handler_ref(), *args, **kwargs)
+            handler = handler_ref()
+            if handler is not None:
+                method_ref(handler, *args, **kwargs)
 
     @property
     def dispatch_enabled(self) -> bool:
